@@ -6,7 +6,7 @@ Import ListNotations.
 Open Scope N_scope.
 
 Ltac consts := unfold HDR, UDPPKT_IN_FIXED_HEADER_NO_LENGTH_SIZE, UDPPKT_LENGTH_SIZE,
-  MAX_UDP_IN_PAYLOAD_SIZE, UDPPKT_OUT_FIXED_HEADER_NO_LENGTH_SIZE, IPV4_PADDING_WIRE_LENGTH in *.
+  MAX_UDP_IN_RECORD_SIZE, UDPPKT_OUT_FIXED_HEADER_NO_LENGTH_SIZE, IPV4_PADDING_WIRE_LENGTH in *.
 
 (* ---------- well-formed decoder states (the asserts of the Rust code hold) ---------- *)
 
@@ -43,7 +43,7 @@ Definition after_header (d : dec) (header : list N) : dec :=
   let t := parse_sockaddr (takeN 18 (dropN 18 header)) in
   let app_len := be (takeN 1 (dropN 36 header)) in
   let d2 := set_addrs (set_buf d []) s t in
-  if MAX_UDP_IN_PAYLOAD_SIZE - app_len <? total d2 then set_st d2 (SDropping (total d2 - 37))
+  if MAX_UDP_IN_RECORD_SIZE + app_len <? total d2 then set_st d2 (SDropping (total d2 - 37))
   else if 37 + app_len <=? total d2 then set_st d2 (SAppName app_len)
   else set_st d2 (SDropping (total d2 - 37)).
 
@@ -154,7 +154,7 @@ Proof.
     unfold after_header. consts.
     set (hd := buf d ++ takeN (37 - lenN (buf d)) x).
     cbn [total set_addrs set_buf set_st].
-    destruct (65471 - be (takeN 1 (dropN 36 hd)) <? total d) eqn:E2.
+    destruct (65544 + be (takeN 1 (dropN 36 hd)) <? total d) eqn:E2.
     { destruct (total d <? 37) eqn:E3; [lia|]. reflexivity. }
     destruct (37 + be (takeN 1 (dropN 36 hd)) <=? total d) eqn:E4; [reflexivity|].
     destruct (total d <? 37) eqn:E3; [lia|]. reflexivity.
@@ -265,7 +265,7 @@ Proof.
       rewrite ?lenN_nil; split; try lia; try reflexivity.
   - cbn [fst]. unfold after_header. consts.
     cbn [st set_st set_total set_buf buf total set_addrs].
-    destruct (65471 - _ <? total d) eqn:E1; [|destruct (37 + _ <=? total d) eqn:E2];
+    destruct (65544 + _ <? total d) eqn:E1; [|destruct (37 + _ <=? total d) eqn:E2];
       cbn [st set_st set_total set_buf buf total set_addrs src dst];
       rewrite ?lenN_nil; split; try lia; try reflexivity.
     repeat split; try congruence; try lia.
@@ -616,7 +616,7 @@ Proof.
     cbn [total set_addrs set_buf] in Hfin. rewrite Htot in Hfin.
     (* what the spec says about a complete record *)
     assert (Hcl : lenN x = L -> classify x =
-      if 65471 - al <? L then None
+      if 65544 + al <? L then None
       else if 37 + al <=? L then
         (if utf8_valid (takeN al (dropN 37 x))
          then Some {| d_src := wire_sockaddr (takeN 18 x);
@@ -627,11 +627,11 @@ Proof.
       else None).
     { intros HxL. unfold classify, max_record. fold al. rewrite HxL.
       destruct (L <? 37) eqn:E1; [lia|].
-      replace (65508 - 37 - al) with (65471 - al) by lia.
-      destruct (65471 - al <? L) eqn:E2; [reflexivity|].
+      replace (65507 + 37 + al) with (65544 + al) by lia.
+      destruct (65544 + al <? L) eqn:E2; [reflexivity|].
       destruct (L <? 37 + al) eqn:E3; destruct (37 + al <=? L) eqn:E4; try lia; [reflexivity|].
       rewrite dropN_dropN. reflexivity. }
-    destruct (65471 - al <? L) eqn:E2; [|destruct (37 + al <=? L) eqn:E4].
+    destruct (65544 + al <? L) eqn:E2; [|destruct (37 + al <=? L) eqn:E4].
     + destruct (walk_drop (set_st (set_addrs (set_buf d []) (wire_sockaddr (takeN 18 x))
                                      (wire_sockaddr (takeN 18 (dropN 18 x)))) (SDropping (L - 37)))
                   (L - 37) (dropN 37 x)) as (d1 & HD & W1 & Hend);
